@@ -12,6 +12,14 @@ import sys
 HERE = os.path.dirname(os.path.dirname(os.path.abspath(__file__)))
 
 EMPHASIS = {
+    'bc': ("This round is about BOUNDARY-CONDITION HANDLING: each change must be invisible for the boundary conditions most examples use (default no-flux, a scalar "
+           "Dirichlet value set with fixedValue on left/right) and manifest only for a legitimate but rarer configuration - Robin conditions with both a and b non-zero and "
+           "of either sign, face-wise (array-valued, non-constant) a, b or c, the utility methods fixedGradient(value, scale_coeffs=...) / newtonCooling(k, h, T_inf, "
+           "reverse_direction=...) / defaultNoFlux(), inhomogeneous Neumann data, conditions on bottom/top/back/front rather than left/right, different kinds on the two "
+           "sides of one axis, periodic on one axis combined with Robin on another, a periodic flag set on one side only, boundary data changed between time steps, "
+           "(a, b, c) multiplied by a common factor (also negative), conditions on the high side of an axis vs the low side, corner cells where two non-trivial boundaries "
+           "meet. Typical culprits: a sign that is only right on the low side, a width or metric factor taken from the wrong end, an index into the coefficient array that "
+           "assumes a scalar, a utility method that forgets one coefficient, a side name mapped to the wrong axis."),
     'geometry': ("This round is about SPECIAL BUT LEGITIMATE GEOMETRY: each change must be invisible on ordinary grids and manifest only for a grid that is "
                  "unusual yet perfectly valid - a domain that starts exactly at r = 0, touches theta = 0 or theta = pi, spans exactly 2*pi (or deliberately less), has a single "
                  "cell or exactly two cells along an axis, has extremely elongated or extremely graded cells (ratio 1e6 between neighbours), lies at negative coordinates "
